@@ -1,5 +1,5 @@
 """C01: log queries return exactly the matching lines, whatever the storage offloads."""
-from vlib import cbytes, b64e
+from vlib import cbytes, b64e, clist, cZ
 import egen
 from egen import EGen, B, oracles_coq, dedup, CAPSETS, rand_caps
 from props.engcommon import EngProp
@@ -88,11 +88,35 @@ def special_case(rng, g: EGen, theme):
             for k in ("src", "dst"):
                 if rng.random() < 0.85:
                     r["attrs"].append((k, rng.choice(pool)))
-        pipe = [g.st_distinct(rng.choice([["src", "dst"], ["dst", "src"], ["src"], ["src", "dst", "nosuch"]]))]
+        dl = rng.choice([["src", "dst"], ["dst", "src"], ["src"], ["src", "dst", "nosuch"]])
+        pipe = [g.st_distinct(dl)]
+        before = after = None
         if rng.random() < 0.5:
-            pipe.append(g.line_filter(words=["error", "GET", "a", "info"]))
+            after = g.line_filter(op=rng.choice(["=", "!="]), words=["error", "GET", "a", "info"])
+            pipe.append(after)
         if rng.random() < 0.3:
-            pipe.insert(0, g.line_filter(words=["error", "GET", "a", "info"]))
+            before = g.line_filter(op=rng.choice(["=", "!="]), words=["error", "GET", "a", "info"])
+            pipe.insert(0, before)
+        # the generator's own reading of `distinct l1, l2`: a record is dropped when, for the first listed label it carries
+        # a value already seen UNDER THAT LABEL; labels it lacks end the test; every tested fresh value is remembered
+        lf = lambda f, line: True if f is None else ((B(f["v"]) in line) == (f["op"] == "="))
+        seen, keep_ts = set(), []
+        for r in recs:
+            if not lf(before, r["line"]):
+                continue
+            labels = egen.base_labels(r)
+            keep = True
+            for l in dl:
+                if B(l) not in labels:
+                    keep = True
+                    break
+                if (l, labels[B(l)]) in seen:
+                    keep = False
+                    break
+                seen.add((l, labels[B(l)]))
+            if keep and lf(after, r["line"]):
+                keep_ts.append(r["ts"])
+        special_case.expect = sorted(keep_ts)
     elif theme == "rewrite":
         lines = [rng.choice(egen.PLAIN_LINES[:12]) for _ in range(n)]
         recs = g.records(lines, with_attrs=False)
@@ -145,8 +169,13 @@ def special_case(rng, g: EGen, theme):
         for _ in range(rng.randint(1, 2)):
             pipe.append(g.line_filter(words=words) if rng.random() < 0.7 else g.label_filter(["app", "level", "pod"]))
     sel = g.selector(extra=False)
-    pipe = g.disambiguate(pipe)
-    return recs, oracles_coq(jsonl=dedup(jsonl), decolor=dedup(deco)), sel, pipe, theme
+    pipe2 = g.disambiguate(pipe)
+    if theme == "distinct2" and [x["op"] for x in pipe2 if x["k"] == "line"] != [x["op"] for x in pipe if x["k"] == "line"]:
+        special_case.expect = None          # the text had to be disambiguated by flipping a filter: the precomputed expectation no longer applies
+    return recs, oracles_coq(jsonl=dedup(jsonl), decolor=dedup(deco)), sel, pipe2, theme
+
+
+special_case.expect = None
 
 
 class P(EngProp):
@@ -162,12 +191,16 @@ class P(EngProp):
         g = EGen(rng)
         cases = []
         for i in range(n):
+            special_case.expect = None
             recs, orc, sel, pipe, theme = themed_case(rng, g, tier)
+            expect = special_case.expect if theme == "distinct2" else None
             q = g.query_text(sel, pipe, rng.choice(["spaced", "spaced", "tight"]))
             qc = g.query_coq(sel, pipe)
             capsets = CAPSETS + [rand_caps(rng)]
             evals = [{"q": b64e(q), "qcoq": qc, "label": cs[0], "line": cs[1], "limit": 0} for cs in capsets]
             rels = ["RelEqual 0 %d" % k for k in range(1, len(evals))] + ["RelSpec %d" % k for k in range(len(evals))]
+            if expect is not None:
+                rels.append("RelTimestamps 0 %s" % clist(cZ(t) for t in expect))
             cases.append({"kind": theme, "recs": [g.rec_json(r) for r in recs], "oracle": orc, "evals": evals, "rels": rels,
                           "stages": [s["k"] for s in pipe], "note": "same query under 5 capability sets"})
         return cases
